@@ -200,9 +200,8 @@ def data_sync_rwlock_mixed():
         evs.append(_ev(H3, w, body=(reader if i % 3 == 0 else writer), hold=HOSTILE[(i + 3) % 9]))
         evs.append(_ev(H3 + NS, w, body=reader, hold=NS))
     _run([rw, *ws], evs, poke=[rw])
-    unl = RWLock("rw2")
+    unl = RWLock("rw2")                      # unlimited readers, finite end_time cutting the last holder
     ws2 = _workers(4, None)
-    evs = [_ev(0.5, w, body=(reader if i else writer), hold=ONE001) for i, w in enumerate(ws2)]
 
     def reader2(w, ev):
         yield from unl.acquire_read()
@@ -283,7 +282,7 @@ def data_sync_condition_wait_for():
 # =====================================================================================================
 
 def data_net_link_source_sink():
-    """source -> NetworkLink (truncating latency, bandwidth, jitter) -> sink, payload sizes, no end_time."""
+    """source -> NetworkLink (truncating latency, bandwidth, jitter) -> sink, payload sizes."""
     _seed(10)
     sink = Sink("sink")
     link = _link("lnk", H3, bandwidth_bps=8_000.0 / 3, jitter=ExponentialLatency(THIRD / 10), egress=sink)
@@ -291,7 +290,7 @@ def data_net_link_source_sink():
     def ctx(t, n):
         return {"created_at": t, "metadata": {"payload_size": (n * 37) % 501}}
     src = _src(7.0, link, "pkt", ctx, 2.0)
-    _run([link, sink], sources=[src])
+    _run([link, sink], sources=[src], end=4.0)     # a Source ticks forever: always a finite end_time
     return {"n": sink.events_received, "sent": link.packets_sent}
 
 
@@ -408,6 +407,920 @@ def data_net_default_link_pingpong():
         net.add_bidirectional_link(a, b, _link("ab", lat))
         _run([net, a, b], [_msg(0.25, net, a, b, "hop", n=300)], end=(None if lat else 1.0))
         out[str(lat)] = cnt[0]
+    return out
+
+
+# =====================================================================================================
+# messaging
+# =====================================================================================================
+
+def _payload(target, n):
+    return Event(time=Instant.Epoch, event_type="payload", target=target, context={"n": n})
+
+
+def data_mq_poll_ack():
+    """Producers publish, a Source polls the queue, consumers ack after hostile delays (1 ns .. 1.001 s);
+    delivery latency 1/3 s so that polls overlap deliveries in flight."""
+    from happysimulator.components.messaging.message_queue import MessageQueue
+    _seed(20)
+    q = MessageQueue("q", delivery_latency=THIRD, redelivery_delay=H3, max_redeliveries=3)
+    sink = Sink("sink")
+    acked = []
+
+    def consumer(w, ev):
+        if ev.event_type != "message_delivery":
+            return None
+        mid = ev.context["message_id"]
+        yield HOSTILE[len(acked) % len(HOSTILE)]
+        q.acknowledge(mid)
+        acked.append(mid)
+        return [Event(time=w.now, event_type="done", target=sink)]
+
+    def producer(w, ev):
+        for i in range(ev.context["k"]):
+            yield from q.publish(_payload(sink, i))
+        return [Event(time=w.now, event_type="poll", target=q)]
+    cs = [_Proc(f"c{i}", consumer) for i in range(3)]
+    for c in cs:
+        q.subscribe(c)
+    p = _Proc("prod", producer)
+    evs = [_ev(0.0, p, k=5), _ev(THIRD, p, k=3), _ev(THIRD, p, k=1), _ev(ONE001, p, k=4)]
+    poller = Source.constant(rate=3.0, target=q, event_type="poll", name="poller", stop_after=6.0)
+    _run([q, sink, p, *cs], evs, sources=[poller], end=8.0)
+    return {"acked": len(acked), "pending": q.pending_count, "inflight": q.in_flight_count}
+
+
+def data_mq_redelivery_dlq():
+    """Consumers never ack in time: visibility timeouts shorter and longer than the redelivery delay,
+    redelivery until dead-lettered; DLQ with capacity and a 0.7 s retention; reprocess_all back into the
+    queue; cleanup/clear admin events exactly at the retention boundary."""
+    from happysimulator.components.messaging.dlq import DeadLetterQueue
+    from happysimulator.components.messaging.message_queue import MessageQueue
+    out = {}
+    for rdel, tmo in ((H3, NS), (THIRD, ONE001), (ONE001, H3)):
+        _seed(21)
+        dlq = DeadLetterQueue("dlq", capacity=3, retention_period=P7)
+        q = MessageQueue("q", delivery_latency=H3 / 3, redelivery_delay=rdel, max_redeliveries=2,
+                         dead_letter_queue=dlq)
+        sink = Sink("sink")
+
+        def consumer(w, ev, q=q, tmo=tmo):
+            if ev.event_type != "message_delivery":
+                return None
+            mid = ev.context["message_id"]
+            yield tmo                                  # visibility timeout elapses without an ack
+            r = q.schedule_redelivery(mid)
+            return [r] if r is not None else None
+
+        def producer(w, ev, q=q, sink=sink):
+            for i in range(ev.context["k"]):
+                yield from q.publish(_payload(sink, i))
+            return [Event(time=w.now, event_type="poll", target=q) for _ in range(ev.context["k"])]
+
+        def admin(w, ev, q=q, dlq=dlq):
+            op = ev.context["op"]
+            if op == "reprocess":
+                return dlq.reprocess_all(q)
+            if op == "one":
+                m = dlq.peek()
+                r = dlq.reprocess(m, q) if m is not None else None
+                return [r] if r is not None else None
+            return [Event(time=w.now, event_type=op, target=dlq)]
+        c = _Proc("c", consumer)
+        q.subscribe(c)
+        p, a = _Proc("prod", producer), _Proc("admin", admin)
+        evs = [_ev(0.0, p, k=4), _ev(2.0, p, k=2)]
+        evs += [_ev(4.0, a, op="one"), _ev(4.0 + P7, a, op="cleanup"), _ev(4.0 + P7 + NS, a, op="cleanup"),
+                _ev(6.0, a, op="reprocess"), _ev(7.0, a, op="clear")]
+        poller = Source.constant(rate=4.0, target=q, event_type="poll", name="poller", stop_after=5.0)
+        _run([q, dlq, sink, p, a, c], evs, sources=[poller], end=9.0)
+        out[f"{rdel:.3f}"] = [q.stats.messages_redelivered, q.stats.messages_dead_lettered, dlq.message_count]
+    return out
+
+
+def data_mq_capacity_reject_burst():
+    """Capacity 3, ten publishes at one instant (overflow raises in the producer, caught), consumers
+    reject with and without requeue, no subscribers at first; no end_time."""
+    from happysimulator.components.messaging.message_queue import MessageQueue
+    _seed(22)
+    q = MessageQueue("q", delivery_latency=NS, redelivery_delay=THIRD, max_redeliveries=1, capacity=3)
+    sink = Sink("sink")
+    seen = []
+
+    def consumer(w, ev):
+        if ev.event_type != "message_delivery":
+            return None
+        mid = ev.context["message_id"]
+        seen.append(mid)
+        if len(seen) % 3 == 0:
+            q.acknowledge(mid)
+        else:
+            q.reject(mid, requeue=(len(seen) % 3 == 1))
+        return [Event(time=w.now, event_type="poll", target=q)]
+
+    def producer(w, ev):
+        ok = 0
+        try:
+            for i in range(ev.context["k"]):
+                yield from q.publish(_payload(sink, i))
+                ok += 1
+        except RuntimeError:
+            w.errors.append("full")
+        return [Event(time=w.now, event_type="poll", target=q) for _ in range(ok)]
+
+    def sub(w, ev):
+        q.subscribe(c1)
+        q.subscribe(c2)
+        return [Event(time=w.now, event_type="poll", target=q) for _ in range(5)]
+
+    def unsub(w, ev):
+        q.unsubscribe(c1)
+        return None
+    c1, c2 = _Proc("c1", consumer), _Proc("c2", consumer)
+    ps = [_Proc(f"p{i}", producer) for i in range(4)]
+    k = _Proc("k", None)
+    evs = [_ev(0.0, p, k=10) for p in ps] + [_ev(H3, k, body=sub), _ev(P7, k, body=unsub),
+                                             _ev(ONE001, ps[0], k=2)]
+    _run([q, sink, c1, c2, k, *ps], evs)
+    return {"seen": len(seen), "full": sum(len(p.errors) for p in ps)}
+
+
+def data_topic_fanout():
+    """source -> Topic('publish') -> three subscribers; per-subscriber latency 0.1*3 so publishes overlap;
+    unsubscribe/re-subscribe with history replay in the middle of a publish."""
+    from happysimulator.components.messaging.topic import Topic
+    _seed(23)
+    topic = Topic("t", delivery_latency=H3, max_subscribers=4)
+    topic.set_retain_messages(True, max_history=5)
+    got = []
+
+    def subscriber(w, ev):
+        got.append((w.name, ev.context.get("is_replay"), w.now.nanoseconds))
+        return None
+    subs = [_Proc(f"s{i}", subscriber) for i in range(4)]
+    for s in subs[:3]:
+        topic.subscribe(s)
+
+    def ctl(w, ev):
+        op = ev.context["op"]
+        if op == "unsub":
+            topic.unsubscribe(subs[1])
+            return None
+        if op == "late":
+            return topic.subscribe(subs[3], replay_history=True)
+        if op == "resub":
+            return topic.subscribe(subs[1], replay_history=True)
+        if op == "over":
+            try:
+                topic.subscribe(_Proc("extra", subscriber))
+            except RuntimeError:
+                w.errors.append("max")
+        return None
+    k = _Proc("ctl", ctl)
+
+    def ctx(t, n):
+        return {"created_at": t, "payload": _payload(subs[0], n)}
+    src = _src(4.0, topic, "publish", ctx, 3.0)
+    evs = [_ev(0.5 + H3, k, op="unsub"), _ev(ONE001, k, op="late"), _ev(2.0, k, op="resub"),
+           _ev(2.0, k, op="over"), Event(time=_t(0.1), event_type="publish", target=topic)]
+    _run([topic, k, *subs], evs, sources=[src], end=8.0)
+    return {"got": len(got), "pub": topic.stats.messages_published}
+
+
+def data_topic_zero_latency_burst():
+    """Zero and 1 ns delivery latency, fifty publishes at one instant, publish_sync from a driver;
+    no end_time."""
+    from happysimulator.components.messaging.topic import Topic
+    out = {}
+    for lat in (0.0, NS):
+        _seed(24)
+        topic = Topic("t", delivery_latency=lat)
+        n = [0]
+
+        def subscriber(w, ev, n=n):
+            n[0] += 1
+            return None
+        subs = [_Proc(f"s{i}", subscriber) for i in range(5)]
+        for s in subs:
+            topic.subscribe(s)
+
+        def syncpub(w, ev, topic=topic, subs=subs):
+            yield THIRD
+            return topic.publish_sync(_payload(subs[0], -1))
+        d = _Proc("d", syncpub)
+        evs = [Event(time=_t(THIRD), event_type="publish", target=topic,
+                     context={"payload": _payload(subs[0], i)}) for i in range(50)]
+        evs.append(_ev(0.0, d))
+        _run([topic, d, *subs], evs)
+        out[str(lat)] = n[0]
+    return out
+
+
+# =====================================================================================================
+# streaming
+# =====================================================================================================
+
+def data_eventlog_append_read_time_retention():
+    """source -> EventLog('Append'); readers use the generator API; TimeRetention(0.7 s) swept every
+    0.1*3 s; append latency 1/3 s so appends overlap sweeps."""
+    from happysimulator.components.streaming.event_log import EventLog, TimeRetention
+    _seed(30)
+    log = EventLog("log", num_partitions=3, retention_policy=TimeRetention(P7), append_latency=THIRD,
+                   read_latency=H3 / 10, retention_check_interval=H3)
+    reads = []
+
+    def reader(w, ev):
+        for pid in range(3):
+            recs = yield from log.read(pid, offset=0, max_records=5)
+            reads.append(len(recs))
+
+    def writer(w, ev):
+        rec = yield from log.append(f"k{ev.context['i']}", {"i": ev.context["i"]})
+        reads.append(rec.offset)
+    r, wr = _Proc("reader", reader), _Proc("writer", writer)
+
+    def ctx(t, n):
+        return {"created_at": t, "key": f"user-{n % 5}", "value": n}
+    src = _src(6.0, log, "Append", ctx, 3.0)
+    evs = [_ev(i * H3, r) for i in range(1, 12)] + [_ev(i * THIRD, wr, i=i) for i in range(9)]
+    _run([log, r, wr], evs, sources=[src], end=6.0)
+    return {"appended": log.stats.records_appended, "expired": log.stats.records_expired, "reads": len(reads)}
+
+
+def data_eventlog_size_retention_boundaries():
+    """SizeRetention(2), sweep period 1/3 s, appends scheduled exactly on the sweep instants (the sweep
+    chain starts when the first append completes) and 1 ns around them."""
+    from happysimulator.components.streaming.event_log import EventLog, SizeRetention
+    _seed(31)
+    lat = 0.125
+    log = EventLog("log", num_partitions=1, retention_policy=SizeRetention(2), append_latency=lat,
+                   read_latency=NS, retention_check_interval=THIRD)
+    evs = []
+    first = Instant.from_seconds(lat)
+    for k in range(12):
+        tk = Instant.from_seconds(first.to_seconds() + 0.0)   # boundaries are computed like the component does
+        for _ in range(k):
+            tk = Instant.from_seconds(tk.to_seconds() + THIRD)
+        for d in (-1, 0, 1):
+            t = Instant(max(0, tk.nanoseconds + d - int(lat * 1e9)))
+            evs.append(Event(time=t, event_type="Append", target=log, context={"key": "k", "value": k}))
+    evs.append(Event(time=_t(1.0), event_type="Read", target=log, context={"partition": 0, "offset": 0}))
+    _run([log], evs, end=5.0)
+    return {"appended": log.stats.records_appended, "expired": log.stats.records_expired}
+
+
+def data_eventlog_ns_retention_period():
+    """retention_check_interval of 1 ns (the smallest representable period) with a finite end_time
+    shortly after the first append."""
+    from happysimulator.components.streaming.event_log import EventLog, SizeRetention
+    _seed(32)
+    log = EventLog("log", num_partitions=1, retention_policy=SizeRetention(1), append_latency=NS * 5,
+                   retention_check_interval=NS)
+    evs = [Event(time=_t(0.0), event_type="Append", target=log, context={"key": "k", "value": i})
+           for i in range(3)]
+    _run([log], evs, end=2e-6)
+    return {"appended": log.stats.records_appended, "expired": log.stats.records_expired}
+
+
+def data_consumer_group_flow():
+    """Three consumers join at one instant, poll/commit in a loop, one leaves and rejoins; every
+    assignment strategy; rebalance delay 1.001 s, poll latency 1 ns; producers append concurrently."""
+    from happysimulator.components.streaming.consumer_group import (ConsumerGroup, RangeAssignment,
+                                                                  RoundRobinAssignment, StickyAssignment)
+    from happysimulator.components.streaming.event_log import EventLog
+    out = {}
+    for strat in (RangeAssignment(), RoundRobinAssignment(), StickyAssignment()):
+        _seed(33)
+        log = EventLog("log", num_partitions=4, append_latency=H3 / 10, read_latency=NS)
+        grp = ConsumerGroup("grp", log, assignment_strategy=strat, rebalance_delay=ONE001,
+                            poll_latency=NS, session_timeout=P7)
+        polled = []
+
+        def consumer(w, ev, grp=grp, polled=polled):
+            yield from grp.join(w.name, w)
+            offs = {}
+            for _ in range(4):
+                recs = yield from grp.poll(w.name, max_records=3)
+                polled.append(len(recs))
+                for r in recs:
+                    offs[r.partition] = max(offs.get(r.partition, 0), r.offset + 1)
+                if offs:
+                    yield from grp.commit(w.name, dict(offs))
+                yield THIRD
+            if ev.context.get("leave"):
+                yield from grp.leave(w.name)
+                yield H3
+                yield from grp.join(w.name, w)
+                recs = yield from grp.poll(w.name)
+                polled.append(len(recs))
+
+        def producer(w, ev, log=log):
+            for i in range(12):
+                yield from log.append(f"key-{i}", i)
+                yield NS
+        cs = [_Proc(f"c{i}", consumer) for i in range(3)]
+        p = _Proc("p", producer)
+        evs = [_ev(0.0, p)] + [_ev(0.0, c, leave=(i == 1)) for i, c in enumerate(cs)]
+        _run([log, grp, p, *cs], evs)
+        out[type(strat).__name__] = [sum(polled), grp.stats.rebalances, grp.total_lag()]
+    return out
+
+
+def _window_src(proc, rate, stop, jitter_late=False, late_by=2.0):
+    def ctx(t, n):
+        ts = t.to_seconds()
+        if jitter_late and n % 4 == 0:
+            ts = max(0.0, ts - late_by)         # a late event
+        return {"created_at": t, "key": f"k{n % 2}", "value": n, "event_time_s": ts}
+    return _src(rate, proc, "Process", ctx, stop)
+
+
+def data_stream_tumbling():
+    """source -> StreamProcessor(TumblingWindow(0.1*3)) -> sink; watermark every 1/3 s; events exactly on
+    window boundaries."""
+    from happysimulator.components.streaming.stream_processor import StreamProcessor, TumblingWindow
+    _seed(34)
+    sink = Sink("sink")
+    sp = StreamProcessor("sp", TumblingWindow(H3), sum, sink, watermark_interval_s=THIRD)
+    src = _window_src(sp, 10.0, 3.0)
+    evs = [Event(time=_t(k * H3), event_type="Process", target=sp, context={"key": "b", "value": 1,
+                                                                            "event_time": _t(k * H3)})
+           for k in range(8)]
+    _run([sp, sink], evs, sources=[src], end=5.0)
+    return {"windows": sp.stats.windows_emitted, "sink": sink.events_received}
+
+
+def data_stream_sliding_late_side_output():
+    """SlidingWindow(1.001, 1/3), allowed lateness 0.1*3, SIDE_OUTPUT and DROP policies, every fourth
+    event is 2 s late."""
+    from happysimulator.components.streaming.stream_processor import (LateEventPolicy, SlidingWindow,
+                                                                      StreamProcessor)
+    out = {}
+    for pol in (LateEventPolicy.SIDE_OUTPUT, LateEventPolicy.DROP):
+        _seed(35)
+        sink, side = Sink("sink"), Sink("side")
+        sp = StreamProcessor("sp", SlidingWindow(ONE001, THIRD), len, sink, allowed_lateness_s=H3,
+                             late_event_policy=pol, side_output=side, watermark_interval_s=THIRD)
+        src = _window_src(sp, 9.0, 5.0, jitter_late=True)
+        _run([sp, sink, side], sources=[src], end=7.0)
+        out[pol.name] = [sp.stats.windows_emitted, sp.stats.late_events, side.events_received]
+    return out
+
+
+def data_stream_session_update():
+    """SessionWindow(gap 0.7 s) with bursts separated by gaps just below / above the gap, UPDATE policy,
+    same-instant burst of 30 events."""
+    from happysimulator.components.streaming.stream_processor import (LateEventPolicy, SessionWindow,
+                                                                      StreamProcessor, TumblingWindow)
+    _seed(36)
+    sink = Sink("sink")
+    sp = StreamProcessor("sp", SessionWindow(P7), len, sink, late_event_policy=LateEventPolicy.UPDATE,
+                         watermark_interval_s=H3)
+    times = [0.0, 0.1, P7 + 0.1 - NS, 2 * P7 + 0.1, 2 * P7 + 0.1 + P7 + NS, 5.0, 5.0 + P7]
+    evs = [Event(time=_t(t), event_type="Process", target=sp, context={"key": "u", "value": i})
+           for i, t in enumerate(times)]
+    evs += [Event(time=_t(3.0), event_type="Process", target=sp, context={"key": f"b{i % 3}", "value": i})
+            for i in range(30)]
+    evs += [Event(time=_t(6.0), event_type="Process", target=sp,
+                  context={"key": "u", "value": 99, "event_time_s": 0.05})]
+    _run([sp, sink], evs, end=9.0)
+    sink2 = Sink("sink2")
+    sp2 = StreamProcessor("sp2", TumblingWindow(THIRD), len, sink2, late_event_policy=LateEventPolicy.UPDATE,
+                          watermark_interval_s=THIRD)
+    src = _window_src(sp2, 7.0, 2.0, jitter_late=True)
+    _run([sp2, sink2], sources=[src], end=4.0)
+    return {"w": sp.stats.windows_emitted, "w2": sp2.stats.windows_emitted}
+
+
+def data_stream_ns_watermark_interval():
+    """watermark_interval_s of 1 ns with a finite end_time 2 us after the first event."""
+    from happysimulator.components.streaming.stream_processor import StreamProcessor, TumblingWindow
+    _seed(37)
+    sink = Sink("sink")
+    sp = StreamProcessor("sp", TumblingWindow(NS * 100), len, sink, watermark_interval_s=NS)
+    evs = [Event(time=_t(0.0), event_type="Process", target=sp, context={"key": "k", "value": i})
+           for i in range(3)]
+    _run([sp, sink], evs, end=2e-6)
+    return {"w": sp.stats.windows_emitted}
+
+
+# =====================================================================================================
+# storage
+# =====================================================================================================
+
+def data_wal_sync_policies():
+    """WriteAheadLog under every sync policy (every write, periodic 0.1*3 s, batch of 3), three writers
+    appending concurrently, crash / recover / truncate in the middle of an append."""
+    from happysimulator.components.storage.wal import (SyncEveryWrite, SyncOnBatch, SyncPeriodic,
+                                                       WriteAheadLog)
+    out = {}
+    for pol in (SyncEveryWrite(), SyncPeriodic(H3), SyncOnBatch(3)):
+        _seed(40)
+        wal = WriteAheadLog("wal", sync_policy=pol, write_latency=THIRD / 10, sync_latency=H3 / 10)
+        seqs = []
+
+        def writer(w, ev, wal=wal, seqs=seqs):
+            for i in range(ev.context["k"]):
+                s = yield from wal.append(f"{w.name}-{i}", i)
+                seqs.append(s)
+                yield ev.context["gap"]
+
+        def crash(w, ev, wal=wal):
+            lost = wal.crash()
+            rec = wal.recover()
+            wal.truncate(rec[len(rec) // 2].sequence_number if rec else 0)
+            wal.append_sync("after-crash", lost)
+            return None
+        ws = _workers(3, writer)
+        k = _Proc("crash", crash)
+        evs = [_ev(0.0, w, k=6, gap=(NS, H3 / 3, 0.0)[i]) for i, w in enumerate(ws)]
+        evs += [_ev(H3, k), _ev(H3 + THIRD / 20, k)]
+        _run([wal, k, *ws], evs, poke=[wal])
+        out[type(pol).__name__] = [len(seqs), wal.stats.syncs, wal.size]
+    return out
+
+
+def data_memtable_sstable():
+    """Memtable put/get with hostile latencies from concurrent drivers, flush into SSTables, SSTable
+    lookups / scans priced as page reads."""
+    from happysimulator.components.storage.memtable import Memtable
+    from happysimulator.components.storage.sstable import SSTable
+    _seed(41)
+    mt = Memtable("mt", size_threshold=5, write_latency=THIRD / 100, read_latency=NS)
+    tables = []
+    hits = []
+
+    def writer(w, ev):
+        for i in range(12):
+            full = yield from mt.put(f"k{(i * 7) % 10:02d}", (w.name, i))
+            if full:
+                tables.append(mt.flush())
+            yield HOSTILE[i % len(HOSTILE)] / 100
+
+    def reader(w, ev):
+        for i in range(12):
+            v = yield from mt.get(f"k{i % 10:02d}")
+            for sst in tables[-2:]:
+                if sst.contains(f"k{i % 10:02d}"):
+                    yield sst.page_reads_for_get(f"k{i % 10:02d}") * (H3 / 1000)
+                    v = sst.get(f"k{i % 10:02d}")
+            hits.append(v is not None)
+            yield THIRD / 50
+        big = SSTable([(f"x{j:03d}", j) for j in range(200)], index_interval=7, level=1, sequence=9)
+        yield big.page_reads_for_scan("x010", "x150") * (H3 / 1000)
+        hits.append(len(big.scan("x010", "x150")) > 0)
+    ws, rs = _workers(2, writer), [_Proc(f"r{i}", reader) for i in range(2)]
+    evs = [_ev(0.0, x) for x in ws + rs]
+    _run([mt, *ws, *rs], evs, poke=[mt])
+    return {"tables": len(tables), "hits": sum(hits), "flushes": mt.stats.flushes}
+
+
+def _lsm_workload(lsm, n_writers=3, keys=14, crash_at=None):
+    log = []
+
+    def writer(w, ev):
+        for i in range(keys):
+            yield from lsm.put(f"k{(i * 5 + ev.context['o']) % 17:02d}", (w.name, i))
+            if i % 5 == 4:
+                yield from lsm.delete(f"k{i % 17:02d}")
+            yield HOSTILE[(i + ev.context["o"]) % len(HOSTILE)] / 1000
+
+    def reader(w, ev):
+        for i in range(keys):
+            v = yield from lsm.get(f"k{i % 17:02d}")
+            log.append(v is not None)
+            if i % 6 == 0:
+                r = yield from lsm.scan("k03", "k11")
+                log.append(len(r))
+            yield THIRD / 500
+
+    def crash(w, ev):
+        lsm.crash()
+        lsm.recover_from_crash()
+        return None
+    ws = [_Proc(f"w{i}", writer) for i in range(n_writers)]
+    rs = [_Proc(f"r{i}", reader) for i in range(2)]
+    k = _Proc("crash", crash)
+    evs = [_ev(0.0, w, o=i) for i, w in enumerate(ws)] + [_ev(THIRD / 100, r) for r in rs]
+    if crash_at is not None:
+        evs.append(_ev(crash_at, k))
+    return ws + rs + [k], evs, log
+
+
+def data_lsm_size_tiered_wal():
+    """LSMTree with a WAL, memtable of 4 entries, size-tiered compaction after 2 SSTables; concurrent
+    writers/readers/scans/deletes; CompactionTrigger events from a Source; crash + recovery between two
+    rounds of writes (a crash() while a flush is suspended makes the flush raise ValueError when it
+    resumes - a functional defect outside C07, so the crash is placed in a quiet moment)."""
+    from happysimulator.components.storage.lsm_tree import LSMTree, SizeTieredCompaction
+    from happysimulator.components.storage.wal import SyncOnBatch, WriteAheadLog
+    _seed(42)
+    wal = WriteAheadLog("wal", sync_policy=SyncOnBatch(2), write_latency=H3 / 1000, sync_latency=THIRD / 1000)
+    lsm = LSMTree("lsm", memtable_size=4, compaction_strategy=SizeTieredCompaction(min_sstables=2), wal=wal,
+                  sstable_read_latency=THIRD / 1000, sstable_write_latency=H3 / 100, max_levels=3)
+    ents, evs, log = _lsm_workload(lsm, crash_at=1.5)
+    evs += [_ev(1.5 + NS, w, o=i + 3) for i, w in enumerate(ents[:2])]
+    trig = Source.constant(rate=30.0, target=lsm, event_type="CompactionTrigger", name="trig", stop_after=2.0)
+    _run([lsm, wal, *ents], evs, sources=[trig], end=3.0, poke=[wal])
+    return {"reads": len(log), "compactions": lsm.stats.compactions, "flushes": lsm.stats.memtable_flushes}
+
+
+def data_lsm_leveled_fifo():
+    """LSMTree without WAL under leveled and FIFO compaction, no end_time."""
+    from happysimulator.components.storage.lsm_tree import FIFOCompaction, LeveledCompaction, LSMTree
+    out = {}
+    for strat in (LeveledCompaction(), FIFOCompaction(max_total_sstables=3)):
+        _seed(43)
+        lsm = LSMTree("lsm", memtable_size=3, compaction_strategy=strat, sstable_read_latency=NS,
+                      sstable_write_latency=ONE001 / 1000, max_levels=4)
+        ents, evs, log = _lsm_workload(lsm, n_writers=2, keys=20)
+        evs += [Event(time=_t(x), event_type="CompactionTrigger", target=lsm) for x in (0.0, H3 / 100, 0.05)]
+        _run([lsm, *ents], evs)
+        out[type(strat).__name__] = [len(log), lsm.stats.compactions]
+    return out
+
+
+def data_btree_ops():
+    """BTree(order 3) so that every few inserts split; concurrent get/put/delete/scan, page latencies
+    1/3 ms and 1 ns."""
+    from happysimulator.components.storage.btree import BTree
+    out = {}
+    for rl, wl in ((THIRD / 1000, H3 / 1000), (NS, NS)):
+        _seed(44)
+        bt = BTree("bt", order=3, page_read_latency=rl, page_write_latency=wl)
+        res = []
+
+        def writer(w, ev, bt=bt):
+            for i in range(25):
+                yield from bt.put(f"k{(i * 11 + ev.context['o']) % 40:02d}", i)
+                if i % 4 == 3:
+                    yield from bt.delete(f"k{(i * 3) % 40:02d}")
+
+        def reader(w, ev, bt=bt, res=res):
+            for i in range(25):
+                v = yield from bt.get(f"k{i % 40:02d}")
+                res.append(v)
+                if i % 8 == 0:
+                    r = yield from bt.scan("k05", "k30")
+                    res.append(len(r))
+        ws = [_Proc(f"w{i}", writer) for i in range(2)]
+        rs = [_Proc(f"r{i}", reader) for i in range(2)]
+        evs = [_ev(0.0, w, o=i) for i, w in enumerate(ws)] + [_ev(0.0, r) for r in rs]
+        _run([bt, *ws, *rs], evs, poke=[bt])
+        out[str(rl)] = [bt.size, bt.depth, bt.stats.node_splits]
+    return out
+
+
+def data_txn_manager_conflicts():
+    """TransactionManager over a BTree and over an LSMTree, every isolation level, transactions that
+    overlap on the same keys and commit at the same instant (write-write and read-write conflicts)."""
+    from happysimulator.components.storage.btree import BTree
+    from happysimulator.components.storage.lsm_tree import LSMTree
+    from happysimulator.components.storage.transaction_manager import IsolationLevel, TransactionManager
+    out = {}
+    for mk in ("btree", "lsm"):
+        for iso in IsolationLevel:
+            _seed(45)
+            store = (BTree("st", order=4, page_read_latency=THIRD / 1000, page_write_latency=H3 / 1000)
+                     if mk == "btree" else LSMTree("st", memtable_size=5, sstable_read_latency=THIRD / 1000))
+            tm = TransactionManager("tm", store, isolation=iso)
+            res = []
+
+            def txn(w, ev, tm=tm, res=res):
+                tx = yield from tm.begin()
+                a = yield from tx.read("acct-a")
+                yield ev.context["think"]
+                yield from tx.write("acct-a", (a or 0) + 1)
+                yield from tx.write(f"acct-{w.name}", 1)
+                if ev.context.get("abort"):
+                    tx.abort()
+                    res.append("abort")
+                    return
+                ok = yield from tx.commit()
+                res.append(ok)
+            ws = _workers(5, txn)
+            evs = [_ev(0.0, w, think=(H3 / 100, H3 / 100, THIRD / 100, NS, ONE001 / 100)[i], abort=(i == 4))
+                   for i, w in enumerate(ws)]
+            evs += [_ev(0.01, w, think=NS) for w in ws[:2]]
+            _run([store, tm, *ws], evs, poke=[tm])
+            out[f"{mk}:{iso.name}"] = [tm.stats.transactions_committed, tm.stats.transactions_aborted]
+    return out
+
+
+# =====================================================================================================
+# datastore
+# =====================================================================================================
+
+def data_kvstore_capacity_latencies():
+    """KVStore with capacity 3 (FIFO eviction), distinct read / write / delete latencies, six drivers at
+    one instant; zero-latency store as a second simulation."""
+    from happysimulator.components.datastore.kv_store import KVStore
+    out = {}
+    for rl, wl, dl in ((THIRD / 100, H3 / 100, ONE001 / 100), (0.0, 0.0, 0.0)):
+        _seed(50)
+        kv = KVStore("kv", read_latency=rl, write_latency=wl, delete_latency=dl, capacity=3)
+        res = []
+
+        def body(w, ev, kv=kv, res=res):
+            for i in range(6):
+                yield from kv.put(f"k{(i + ev.context['o']) % 5}", i)
+                v = yield from kv.get(f"k{i % 5}")
+                res.append(v)
+                if i % 3 == 2:
+                    d = yield from kv.delete(f"k{i % 5}")
+                    res.append(d)
+        ws = _workers(6, body)
+        _run([kv, *ws], [_ev(0.0, w, o=i) for i, w in enumerate(ws)], poke=[kv])
+        out[str(rl)] = [kv.size, kv.stats.evictions]
+    return out
+
+
+def data_cached_store_policies():
+    """CachedStore in front of a KVStore for every eviction policy (TTLEviction with a 0.1*3 s ttl read
+    from the simulation clock), write-through and write-back with flush; reads racing writes."""
+    from happysimulator.components.datastore import eviction_policies as E
+    from happysimulator.components.datastore.cached_store import CachedStore
+    from happysimulator.components.datastore.kv_store import KVStore
+    out = {}
+    clock = {}
+    pols = [lambda: E.LRUEviction(), lambda: E.LFUEviction(),
+            lambda: E.TTLEviction(H3, clock_func=lambda: clock["c"].now.to_seconds()),
+            lambda: E.FIFOEviction(), lambda: E.RandomEviction(seed=3), lambda: E.SLRUEviction(0.5),
+            lambda: E.SampledLRUEviction(sample_size=2, seed=4), lambda: E.ClockEviction(),
+            lambda: E.TwoQueueEviction(0.5)]
+    for i, mk in enumerate(pols):
+        _seed(51)
+        kv = KVStore("kv", read_latency=THIRD / 10, write_latency=H3 / 10)
+        pol = mk()
+        cs = CachedStore("cs", kv, cache_capacity=3, eviction_policy=pol, cache_read_latency=NS,
+                         write_through=(i % 2 == 0))
+        clock["c"] = cs
+        res = []
+
+        def body(w, ev, cs=cs, res=res):
+            for j in range(8):
+                k = f"k{(j * 3 + ev.context['o']) % 6}"
+                if (j + ev.context["o"]) % 3 == 0:
+                    yield from cs.put(k, j)
+                else:
+                    res.append((yield from cs.get(k)))
+                if j == 5:
+                    d = yield from cs.delete(k)
+                    res.append(d)
+                yield HOSTILE[j] / 10
+            n = yield from cs.flush()
+            res.append(n)
+            cs.invalidate("k0")
+        ws = _workers(3, body)
+        _run([kv, cs, *ws], [_ev(0.0, w, o=k) for k, w in enumerate(ws)], poke=[kv, cs])
+        out[type(pol).__name__] = [cs.stats.hits, cs.stats.misses, cs.stats.evictions]
+    return out
+
+
+def data_soft_ttl_cache_boundaries():
+    """SoftTTLCache(soft 0.1*3, hard 1.001): reads exactly at / 1 ns around the soft and hard expiry of an
+    entry, stale reads that trigger the background refresh (an event to the cache itself), coalesced
+    reads during a refresh, capacity 2."""
+    from happysimulator.components.datastore.kv_store import KVStore
+    from happysimulator.components.datastore.soft_ttl_cache import SoftTTLCache
+    out = {}
+    for end in (None, 3.0):
+        _seed(52)
+        kv = KVStore("kv", read_latency=THIRD / 10, write_latency=H3 / 10)
+        for k in "abc":
+            kv.put_sync(k, k.upper())
+        c = SoftTTLCache("sttl", kv, soft_ttl=H3, hard_ttl=ONE001, cache_capacity=2, cache_read_latency=NS)
+        res = []
+
+        def read(w, ev, c=c, res=res):
+            v = yield from c.get(ev.context["k"])
+            res.append((ev.context["k"], v, w.now.nanoseconds))
+
+        def write(w, ev, c=c):
+            yield from c.put(ev.context["k"], "new")
+            c.invalidate("b")
+        ws = _workers(4, read)
+        stored = int((THIRD / 10) * 1e9)          # the first read of 'a' stores it at this instant
+        soft, hard = stored + int(H3 * 1e9), stored + int(ONE001 * 1e9)
+        evs = [_ev(0.0, ws[0], k="a")]
+        for d in (-1, 0, 1):
+            evs.append(_ev(Instant(soft + d), ws[1 + (d % 3)], k="a"))
+            evs.append(_ev(Instant(hard + d), ws[1 + (d % 3)], k="a"))
+        evs += [_ev(Instant(soft + 2), w, k="a") for w in ws]           # coalesce on the refresh in flight
+        evs += [_ev(0.5, ws[0], k="b"), _ev(0.5, ws[1], k="c"), _ev(0.5 + NS, ws[2], k="zz"),
+                _ev(0.7, ws[3], body=write, k="a"), _ev(2.5, ws[0], k="a"), _ev(2.5, ws[1], k="a")]
+        _run([kv, c, *ws], evs, end=end, poke=[kv])
+        out[str(end)] = [c.stats.fresh_hits, c.stats.stale_hits, c.stats.hard_misses,
+                         c.stats.background_refreshes]
+    return out
+
+
+def data_cache_warmer_epoch():
+    """CacheWarmer started at the epoch (the documented use): 3 keys/s -> a 1/3 s pacing delay, warmup
+    reads through a CachedStore and through a SoftTTLCache; user reads race the warmer."""
+    from happysimulator.components.datastore.cache_warming import CacheWarmer
+    from happysimulator.components.datastore.cached_store import CachedStore
+    from happysimulator.components.datastore.eviction_policies import LRUEviction
+    from happysimulator.components.datastore.kv_store import KVStore
+    from happysimulator.components.datastore.soft_ttl_cache import SoftTTLCache
+    out = {}
+    for kind in ("cached", "sttl"):
+        _seed(53)
+        kv = KVStore("kv", read_latency=H3 / 10, write_latency=THIRD / 10)
+        for i in range(8):
+            kv.put_sync(f"k{i}", i)
+        cache = (CachedStore("c", kv, 4, LRUEviction(), cache_read_latency=NS) if kind == "cached"
+                 else SoftTTLCache("c", kv, soft_ttl=P7, hard_ttl=ONE001, cache_read_latency=NS))
+        wm = CacheWarmer("warm", cache, keys_to_warm=lambda: [f"k{i}" for i in range(6)] + ["missing"],
+                         warmup_rate=3.0, warmup_latency=THIRD / 100)
+        res = []
+
+        def user(w, ev, cache=cache, res=res):
+            for i in range(6):
+                res.append((yield from cache.get(f"k{i}")))
+                yield THIRD
+        u = _Proc("user", user)
+        _run([kv, cache, wm, u], [wm.start_warming(), _ev(THIRD, u)], poke=[kv])
+        out[kind] = [wm.stats.keys_warmed, wm.stats.keys_failed, wm.is_complete]
+    return out
+
+
+def data_cache_warmer_late_start():
+    """CacheWarmer.start_warming() called from inside a running simulation at t = 1/3 s and its event
+    returned by the caller (a deployment step that warms a new cache node)."""
+    from happysimulator.components.datastore.cache_warming import CacheWarmer
+    from happysimulator.components.datastore.cached_store import CachedStore
+    from happysimulator.components.datastore.eviction_policies import FIFOEviction
+    from happysimulator.components.datastore.kv_store import KVStore
+    _seed(54)
+    kv = KVStore("kv", read_latency=H3 / 10)
+    for i in range(4):
+        kv.put_sync(f"k{i}", i)
+    cache = CachedStore("c", kv, 4, FIFOEviction(), cache_read_latency=NS)
+    wm = CacheWarmer("warm", cache, keys_to_warm=[f"k{i}" for i in range(4)], warmup_rate=1 / H3)
+
+    def deploy(w, ev):
+        yield THIRD
+        return [wm.start_warming()]
+    d = _Proc("deploy", deploy)
+    _run([kv, cache, wm, d], [_ev(0.0, d)], end=5.0)
+    return {"warmed": wm.stats.keys_warmed, "complete": wm.is_complete}
+
+
+def data_database_pool_contention():
+    """Database with 2 connections and 7 concurrent clients (the rest poll for a connection), a query
+    latency function returning hostile values, transactions that commit / roll back, no end_time."""
+    from happysimulator.components.datastore.database import Database
+    _seed(55)
+    lat = {"SELECT": THIRD / 10, "UPDATE": H3 / 10, "INSERT": ONE001 / 100, "DELETE": NS}
+    db = Database("db", max_connections=2, query_latency=lambda q: lat.get(q.split()[0].upper(), P7 / 100),
+                  connection_latency=THIRD / 100, commit_latency=H3 / 100, rollback_latency=NS)
+    db.create_table("t")
+    res = []
+
+    def client(w, ev):
+        r = yield from db.execute("SELECT * FROM t")
+        res.append(r)
+        tx = yield from db.begin_transaction()
+        yield from tx.execute("UPDATE t SET x = 1")
+        yield from tx.execute("INSERT INTO t VALUES (1)")
+        if ev.context["rollback"]:
+            yield from tx.rollback()
+        else:
+            yield from tx.commit()
+        r = yield from db.execute("DELETE FROM t")
+        res.append(r)
+        r = yield from db.execute("VACUUM")
+        res.append(r)
+    ws = _workers(7, client)
+    evs = [_ev(0.0 if i < 5 else H3 / 10, w, rollback=(i % 3 == 0)) for i, w in enumerate(ws)]
+    _run([db, *ws], evs, poke=[db])
+    return {"res": len(res), "waits": db.stats.connection_wait_count, "q": db.stats.queries_executed}
+
+
+def data_multi_tier_cache():
+    """MultiTierCache L1 (CachedStore, 1 ns) / L2 (CachedStore, 1/3 ms) over a KVStore for every promotion
+    policy; reads, writes, deletes and invalidations from three drivers."""
+    from happysimulator.components.datastore.cached_store import CachedStore
+    from happysimulator.components.datastore.eviction_policies import LFUEviction, LRUEviction
+    from happysimulator.components.datastore.kv_store import KVStore
+    from happysimulator.components.datastore.multi_tier_cache import MultiTierCache, PromotionPolicy
+    out = {}
+    for pol in PromotionPolicy:
+        _seed(56)
+        kv = KVStore("kv", read_latency=H3 / 10, write_latency=ONE001 / 100)
+        for i in range(10):
+            kv.put_sync(f"k{i}", i)
+        l1 = CachedStore("l1", kv, 2, LRUEviction(), cache_read_latency=NS)
+        l2 = CachedStore("l2", kv, 5, LFUEviction(), cache_read_latency=THIRD / 1000)
+        mt = MultiTierCache("mt", [l1, l2], kv, promotion_policy=pol)
+        res = []
+
+        def body(w, ev, mt=mt, res=res):
+            for j in range(10):
+                k = f"k{(j * (1 + ev.context['o'])) % 10}"
+                res.append((yield from mt.get(k)))
+                if j % 4 == 1:
+                    yield from mt.put(k, -j)
+                if j % 5 == 4:
+                    yield from mt.delete(k)
+                    mt.invalidate(f"k{j % 10}")
+                yield HOSTILE[j % len(HOSTILE)] / 100
+        ws = _workers(3, body)
+        _run([kv, l1, l2, mt, *ws], [_ev(0.0, w, o=i) for i, w in enumerate(ws)], poke=[kv, l1, l2, mt])
+        out[pol.name] = [mt.stats.reads, mt.stats.promotions]
+    return out
+
+
+def data_replicated_store_levels():
+    """ReplicatedStore over three KVStores with different latencies for every (read, write) consistency
+    pair; timeouts shorter than a replica's latency."""
+    from happysimulator.components.datastore.kv_store import KVStore
+    from happysimulator.components.datastore.replicated_store import ConsistencyLevel, ReplicatedStore
+    out = {}
+    for rc in ConsistencyLevel:
+        for wc in ConsistencyLevel:
+            _seed(57)
+            reps = [KVStore(f"r{i}", read_latency=(NS, THIRD / 10, ONE001 / 10)[i],
+                            write_latency=(H3 / 10, NS, P7 / 10)[i]) for i in range(3)]
+            rs = ReplicatedStore("rs", reps, read_consistency=rc, write_consistency=wc,
+                                 read_timeout=THIRD / 100, write_timeout=H3 / 100)
+            res = []
+
+            def body(w, ev, rs=rs, res=res):
+                for j in range(4):
+                    ok = yield from rs.put(f"k{j}", (w.name, j))
+                    v = yield from rs.get(f"k{(j + 1) % 4}")
+                    res.append((ok, v is not None))
+                d = yield from rs.delete("k0")
+                res.append(d)
+            ws = _workers(3, body)
+            _run([rs, *reps, *ws], [_ev(0.0, w) for w in ws], poke=[rs, *reps])
+            out[f"{rc.name}/{wc.name}"] = len(res)
+    return out
+
+
+def data_sharded_store_strategies():
+    """ShardedStore over four KVStores under hash, range and consistent-hash sharding; point operations
+    and scatter_gather from concurrent drivers."""
+    from happysimulator.components.datastore.kv_store import KVStore
+    from happysimulator.components.datastore.sharded_store import (ConsistentHashSharding, HashSharding,
+                                                                   RangeSharding, ShardedStore)
+    out = {}
+    for strat in (HashSharding(), RangeSharding(["g", "n", "t"]), ConsistentHashSharding(virtual_nodes=8, seed=5)):
+        _seed(58)
+        shards = [KVStore(f"s{i}", read_latency=HOSTILE[i] / 10, write_latency=HOSTILE[i + 4] / 10)
+                  for i in range(4)]
+        ss = ShardedStore("ss", shards, sharding_strategy=strat)
+        res = []
+
+        def body(w, ev, ss=ss, res=res):
+            keys = [f"{c}{ev.context['o']}" for c in "azmhtbq"]
+            for k in keys:
+                yield from ss.put(k, k.upper())
+            got = yield from ss.scatter_gather(keys + ["nope"])
+            res.append(len(got))
+            res.append((yield from ss.get(keys[0])))
+            res.append((yield from ss.delete(keys[1])))
+        ws = _workers(3, body)
+        _run([ss, *shards, *ws], [_ev(0.0, w, o=i) for i, w in enumerate(ws)], poke=[ss, *shards])
+        out[type(strat).__name__] = [len(res), sorted(ss.get_shard_sizes().values())]
+    return out
+
+
+def data_write_policies_flush_loop():
+    """WriteThrough / WriteBack(0.1*3 s, 3 dirty) / WriteAround driving a KVStore from a periodic flusher
+    whose period (1/3 s) is not a multiple of the policy's flush interval."""
+    from happysimulator.components.datastore.kv_store import KVStore
+    from happysimulator.components.datastore.write_policies import WriteAround, WriteBack, WriteThrough
+    out = {}
+    for pol in (WriteThrough(), WriteBack(flush_interval=H3, max_dirty=3), WriteAround()):
+        _seed(59)
+        kv = KVStore("kv", read_latency=NS, write_latency=THIRD / 10)
+        buf = {}
+        n = [0]
+
+        def writer(w, ev, pol=pol, kv=kv, buf=buf):
+            for j in range(9):
+                k = f"k{j % 4}"
+                buf[k] = j
+                pol.on_write(k, j)
+                if pol.should_write_through():
+                    yield from kv.put(k, j)
+                yield HOSTILE[j] / 10
+
+        def flusher(w, ev, pol=pol, kv=kv, buf=buf, n=n):
+            for _ in range(8):
+                yield THIRD
+                if pol.should_flush():
+                    keys = pol.get_keys_to_flush()
+                    for k in keys:
+                        yield from kv.put(k, buf.get(k))
+                    pol.on_flush(keys)
+                    n[0] += len(keys)
+        w1, f1 = _Proc("w", writer), _Proc("f", flusher)
+        _run([kv, w1, f1], [_ev(0.0, w1), _ev(0.0, f1)], poke=[kv])
+        out[type(pol).__name__] = [kv.stats.writes, n[0]]
     return out
 
 
